@@ -90,6 +90,10 @@ func eventErr(s string) error {
 		return context.Canceled
 	case "wrapped-EOF":
 		return fmt.Errorf("entropy source: %w", io.EOF)
+	case "unhashable": // an error whose dynamic type cannot be a map key or be compared (a list of errors)
+		return multiErr{errCustom, io.ErrUnexpectedEOF}
+	case "struct-with-slice":
+		return detailErr{Op: "read", Causes: []error{errCustom}}
 	}
 	harnessError("unknown error kind %q", s)
 	return nil
@@ -139,7 +143,19 @@ func (r *scriptReader) Read(p []byte) (int, error) {
 }
 
 // osErrKinds: failures an operating-system source reports (beyond the five kinds of the grid).
-var osErrKinds = []string{"ENOSYS", "ENOENT", "EACCES", "EPERM", "EINTR", "EIO", "ErrNotExist", "ErrPermission", "ErrNoProgress", "ErrClosedPipe", "deadline", "canceled", "wrapped-EOF"}
+// multiErr and detailErr: error values of unhashable, incomparable dynamic types.
+type multiErr []error
+
+func (m multiErr) Error() string { return fmt.Sprintf("verif: %d injected errors", len(m)) }
+
+type detailErr struct {
+	Op     string
+	Causes []error
+}
+
+func (d detailErr) Error() string { return "verif: injected " + d.Op + " failure" }
+
+var osErrKinds = []string{"unhashable", "struct-with-slice", "ENOSYS", "ENOENT", "EACCES", "EPERM", "EINTR", "EIO", "ErrNotExist", "ErrPermission", "ErrNoProgress", "ErrClosedPipe", "deadline", "canceled", "wrapped-EOF"}
 
 func longestEmptyRun(calls []readCall) int {
 	best, run := 0, 0
